@@ -10,6 +10,7 @@ every output completely rewritten (equals the reference run).
 import itertools
 import os
 import re
+import shutil
 import subprocess
 import sys
 from pathlib import Path
@@ -36,13 +37,28 @@ AUDIT = {"on": False, "events": []}
 _HOOKED = []
 
 
+COMPETITOR = b"written by a competing process just before the open\n" * 50
+
+
 def _hook(event, args):
     if not AUDIT["on"]:
         return
     if event == "open":
         path, mode, flags = args
         if isinstance(path, (str, bytes, os.PathLike)):
-            AUDIT["events"].append(("open", os.fsdecode(path), mode, flags))
+            p = os.fsdecode(path)
+            AUDIT["events"].append(("open", p, mode, flags))
+            inj = AUDIT.get("inject")
+            if inj and isinstance(flags, int) and (flags & os.O_CREAT) and os.path.realpath(p) in inj and not os.path.lexists(p):
+                # fault injection: a competitor creates the file between the program's check and its open
+                AUDIT["on"] = False
+                try:
+                    with open(p, "wb") as fh:
+                        fh.write(COMPETITOR)
+                    inj.discard(os.path.realpath(p))
+                    AUDIT.setdefault("injected", []).append(p)
+                finally:
+                    AUDIT["on"] = True
     elif event in ("os.rename", "os.remove", "os.truncate", "os.rmdir", "shutil.move", "shutil.copyfile"):
         AUDIT["events"].append((event, *[os.fsdecode(a) if isinstance(a, (str, bytes, os.PathLike)) else a for a in args]))
 
@@ -181,6 +197,72 @@ def check_case(ctx, cr, out_name, write_log, rng, tier, max_subsets):
         ctx.sample({"output_files": files, "example_subset": subsets[len(subsets) // 2], "out_name": out_name, "write_log": write_log})
 
 
+def hostile_case(ctx, cr, out_name, write_log, rng):
+    """Pre-existing outputs that are symlinks (to a file / dangling), and a competitor that
+    creates an output file just before the program opens it."""
+    from vf import cli_runs
+
+    extra = ["--write-log" if write_log else "--no-write-log"]
+    cli_runs.clear_outputs(cr)
+    ref = cli_runs.run_pretext_to_asm(cr, out_name, extra)
+    if ref["exit_code"] != 0:
+        return
+    files = outputs_of(cr)
+    base_case = cli_runs.case_of(cr, {"out_name": out_name, "write_log": write_log, "hostile": True})
+    tdir = cr["dir"] / "targets"
+    install_hook()
+    for leg in ("symlink-to-file", "dangling-symlink", "race"):
+        for n in ([f for f in files if f.endswith(".log")] + rng.sample(files, min(2, len(files))))[:3]:
+            ctx.case()
+            cli_runs.clear_outputs(cr)
+            shutil.rmtree(tdir, ignore_errors=True)
+            tdir.mkdir()
+            p = cr["dir"] / n
+            case = {**base_case, "leg": leg, "file": n}
+            ctx.nontrivial([base_case["files"], out_name, write_log, leg, n])
+            AUDIT["events"] = []
+            AUDIT["inject"] = None
+            AUDIT["injected"] = []
+            if leg == "symlink-to-file":
+                (tdir / n).write_bytes(SENTINEL)
+                p.symlink_to(tdir / n)
+            elif leg == "dangling-symlink":
+                p.symlink_to(tdir / (n + ".absent"))
+            else:
+                AUDIT["inject"] = {os.path.realpath(p)}
+            AUDIT["on"] = True
+            try:
+                res = cli_runs.run_pretext_to_asm(cr, out_name, [*extra, "--no-clobber"])
+            finally:
+                AUDIT["on"] = False
+                AUDIT["inject"] = None
+            ctx.count(f"hostile:{leg}")
+            ok = True
+            if leg == "symlink-to-file":
+                if (tdir / n).read_bytes() != SENTINEL or not p.is_symlink():
+                    ctx.violation(f"no-clobber:wrote-through-symlink-to-existing-file:{_ftype(n)}", f"{n}", case)
+                    ok = False
+            elif leg == "dangling-symlink":
+                if (tdir / (n + ".absent")).exists() or not p.is_symlink():
+                    ctx.violation(f"no-clobber:wrote-through-dangling-symlink:{_ftype(n)}", f"{n}: target created / link replaced", case)
+                    ok = False
+            else:
+                if not AUDIT["injected"]:
+                    ctx.count("hostile:race-not-injected")
+                    continue
+                if p.read_bytes() != COMPETITOR:
+                    ctx.violation(f"no-clobber:file-created-by-competitor-before-open-was-overwritten:{_ftype(n)}", f"{n} now {p.read_bytes()[:60]!r}", case)
+                    ok = False
+            if ok and res["exit_code"] == 0:
+                ctx.violation(f"no-clobber:exit-status-zero:{leg}:{_ftype(n)}", f"{n}: run succeeded although the path was taken", case)
+                ok = False
+            if ok:
+                ctx.count("hostile-ok")
+            if p.is_symlink():
+                p.unlink()
+    shutil.rmtree(tdir, ignore_errors=True)
+
+
 def _ftype(name):
     for suf, t in ((".log", "log"), (".info.yaml", "info-yaml"), (".chr_report.csv", "chr-report-csv"), (".chromosome.list.csv", "chromosome-list-csv"), (".agp", "agp"), (".tpf", "tpf"), (".fa", "fasta")):
         if name.endswith(suf):
@@ -260,6 +342,8 @@ def run(shard, ctx):
         try:
             if shard["kind"] == "strace":
                 strace_case(ctx, cr, out_name, rng.random() < 0.5, rng)
+            elif shard["kind"] == "hostile":
+                hostile_case(ctx, cr, out_name, (i % 3 != 2), rng)
             else:
                 check_case(ctx, cr, out_name, (i % 2 == 0), rng, shard["tier"], shard["max_subsets"])
         finally:
@@ -273,6 +357,8 @@ def replay(case, ctx):
     rng = rng_for(0, "replay")
     if case.get("strace"):
         strace_case(ctx, cr, case["out_name"], case["write_log"], rng)
+    elif case.get("hostile"):
+        hostile_case(ctx, cr, case["out_name"], case["write_log"], rng)
     else:
         check_case(ctx, cr, case["out_name"], case["write_log"], rng, "quick", 70)
 
@@ -280,6 +366,7 @@ def replay(case, ctx):
 def plan(tier, seed):
     n, per, ms = (16, 8, 40) if tier == "quick" else (16, 24, 70)
     sh = [{"kind": "audit", "n": per, "max_subsets": ms} for _ in range(n)]
+    sh += [{"kind": "hostile", "n": 4 if tier == "quick" else 40, "max_subsets": 0} for _ in range(3)]
     if tier == "thorough":
         sh += [{"kind": "strace", "n": 10, "max_subsets": 0} for _ in range(15)]
     else:
@@ -299,5 +386,7 @@ def gates(c, tier):
         "assemblies:multi": 8,
         "assemblies:single": 8,
         "strace-ok": 4,
+        "hostile-ok": 40,
+        "hostile:race": 10,
     }
     return [f"{k}>={v} (got {c.get(k, 0)})" for k, v in need.items() if c.get(k, 0) < v]
